@@ -132,3 +132,6 @@ func Short(s string) string {
 	}
 	return fmt.Sprintf("%s…(%d)…%s", s[:8], len(s), s[len(s)-8:])
 }
+
+// BufReader wraps bytes in a bufio.Reader.
+func BufReader(b []byte) *bufio.Reader { return bufio.NewReader(bytes.NewReader(b)) }
